@@ -35,6 +35,9 @@ type caseResult struct {
 
 func evalCase(env *vh.Env, c *hcase) *caseResult {
 	ob := runImpl(c)
+	if ob.skipped {
+		return &caseResult{c, ob, nil, nil}
+	}
 	ans, err := vh.RunDriver(env.Driver, driverLines(c, ob))
 	if err != nil {
 		vh.Die("%v", err)
@@ -159,6 +162,9 @@ func directed(env *vh.Env, rep *vh.Report, res *caseResult) bool {
 			continue
 		}
 		r := evalCase(env, v)
+		if r.ob.skipped {
+			continue
+		}
 		rep.Count("directed-search:histories")
 		if len(r.pf) > 0 {
 			rep.Count("directed-search:property-failure-found")
@@ -262,6 +268,9 @@ func runCases(env *vh.Env, rep *vh.Report, cases []*hcase) {
 	for i, c := range cases {
 		obsAll[i] = runImpl(c)
 		offs[i] = len(lines)
+		if obsAll[i].skipped {
+			continue
+		}
 		lines = append(lines, driverLines(c, obsAll[i])...)
 	}
 	offs[len(cases)] = len(lines)
@@ -270,6 +279,17 @@ func runCases(env *vh.Env, rep *vh.Report, cases []*hcase) {
 		vh.Die("%v", err)
 	}
 	for i, c := range cases {
+		if obsAll[i].skipped {
+			rep.Count("skipped-after-established-hang")
+			continue
+		}
+		if obsAll[i].hung {
+			// established: no second execution (it would block for the whole watchdog again)
+			rep.Case(canon(c), nontrivial(c))
+			rep.Count("gen:" + c.Gen)
+			report(rep, &caseResult{c, obsAll[i], nil, direct(c, obsAll[i])})
+			continue
+		}
 		res := &caseResult{c, obsAll[i], compare(c, obsAll[i], ans[offs[i]:offs[i+1]]), direct(c, obsAll[i])}
 		if obsAll[i].disturbed {
 			rep.Count("realclock:disturbed-by-load-skipped")
@@ -306,6 +326,15 @@ func runCases(env *vh.Env, rep *vh.Report, cases []*hcase) {
 		if len(res.mm) > 0 || len(res.pf) > 0 {
 			// confirm on a fresh logger: a scheduling fluke does not repeat
 			res2 := evalCase(env, c)
+			if res2.ob.skipped || res2.ob.hung {
+				// no second execution possible (hang established meanwhile): report the first one
+				if res2.ob.hung {
+					report(rep, res2)
+				} else {
+					report(rep, res)
+				}
+				continue
+			}
 			if res2.ob.disturbed {
 				rep.Count("realclock:disturbed-by-load-skipped")
 				continue
@@ -511,7 +540,7 @@ func main() {
 			if x.Case != nil {
 				cases = append(cases, x.Case)
 			}
-			if x.Stage == "conc" {
+			if x.Stage == "conc" || x.Stage == "fault" {
 				runConc = true
 			}
 		}
@@ -526,6 +555,7 @@ func main() {
 	}
 	if runConc {
 		concStage(env, rep, rng)
+		faultStage(env, rep, rng)
 	}
 	rep.Write(env.Out)
 }
